@@ -620,6 +620,11 @@ type FuncVal struct {
 	Decl *types.Func
 	// MethodExpr: a method expression T.M (the first argument of a call is the receiver)
 	MethodExpr *types.Func
+	// Bound: a method value x.M: the method with its receiver (RecvCell for a pointer receiver, RecvVal a copy for a
+	// value receiver)
+	Bound    *types.Func
+	RecvCell *Cell
+	RecvVal  Value
 }
 
 // mapKey renders a constant key; ok=false when the key is symbolic.
